@@ -164,6 +164,7 @@ type Engine struct {
 	digitsDefined map[string]bool
 	numLitDone map[string]bool
 	loopFrames []*frame
+	strLenQ    bool // theory strlen: strOf under a quantifier carries its length fact
 	loopBounds []T // allocation pointer at the entry of each enclosing loop (innermost last)
 	epochLoopFrames map[int][]*frame
 	clauseState *State
